@@ -144,6 +144,22 @@ func RunCheck(p *Prop, o CheckOpts) int {
 			mergeViolStream(merged, s.report+".viol")
 			logTail := tailFile(s.logPath, 12000)
 			reason, site := classifyDeath(logTail, ev.err)
+			if reason == "hang" {
+				// wall-clock watchdog: inconclusive, never a verdict
+				inconclusive = append(inconclusive, fmt.Sprintf("case %d exceeded the per-case wall-clock watchdog (goroutine dump in %s)", last, keepLog(o, p, s.logPath, last)))
+				merged.Counters["case_watchdog_fired"]++
+				if s.restarts < 25 && last >= 0 {
+					s.restarts++
+					s.from = last + int64(nshards)
+					if s.from < n {
+						if err := launch(s); err == nil {
+							wait(s)
+							running++
+						}
+					}
+				}
+				continue
+			}
 			v := Violation{Property: p.ID, Kind: "death", Sig: "death:" + reason + ":" + site, Pool: "n/a", Case: last,
 				Detail:  fmt.Sprintf("shard child died (%v) while executing case %d: %s at %s", ev.err, last, reason, site),
 				Witness: map[string]any{"log_tail": lastLines(logTail, 60)}}
@@ -266,6 +282,18 @@ func RunCheck(p *Prop, o CheckOpts) int {
 	return 0
 }
 
+func keepLog(o CheckOpts, p *Prop, logPath string, cs int64) string {
+	os.MkdirAll(o.ReplayDir, 0o755)
+	dst := filepath.Join(o.ReplayDir, fmt.Sprintf("%s-hang-case%d.log", p.ID, cs))
+	if b, err := os.ReadFile(logPath); err == nil {
+		if len(b) > 400000 {
+			b = b[:400000]
+		}
+		os.WriteFile(dst, b, 0o644)
+	}
+	return dst
+}
+
 func oneLine(s string, n int) string {
 	s = strings.ReplaceAll(s, "\n", "⏎")
 	if len(s) > n {
@@ -289,7 +317,7 @@ func childEnv(root string, shard int, o CheckOpts) []string {
 	}
 	env = append(env, "HOME="+filepath.Join(root, "home"))
 	env = append(env, "GOTRACEBACK=all")
-	env = append(env, fmt.Sprintf("GORACE=halt_on_error=0 history_size=3 log_path=%s", filepath.Join(root, "race", fmt.Sprintf("s%02d", shard))))
+	env = append(env, fmt.Sprintf("GORACE=halt_on_error=0 exitcode=0 history_size=3 log_path=%s", filepath.Join(root, "race", fmt.Sprintf("s%02d", shard))))
 	env = append(env, "VERIF_WIRE_EXE="+o.WireExe)
 	env = append(env, "VERIF_SELF_EXE="+o.SelfExe)
 	return env
